@@ -1,1 +1,135 @@
-// abstract-JSON constructors and projections
+//! Abstract-JSON <-> gds21 values.  Written field by field by hand; deliberately does not go through the
+//! crate's serde derives (C18 tests those).  Shapes follow specs/gds/GdsGrammar.tla:
+//!   optional field = array of length 0 or 1; string = array of byte values; double = 16 hex digits.
+use crate::c15::{digits, undigits};
+use crate::util::*;
+use gds21::*;
+use serde_json::{json, Value};
+
+pub fn bytes_of(v: &Value) -> Vec<u8> {
+    v.as_array().map(|a| a.iter().map(|x| x.as_u64().unwrap() as u8).collect()).unwrap_or_default()
+}
+pub fn string_of(v: &Value) -> String {
+    // Strings are built from raw bytes; invalid UTF-8 cannot be held by a Rust String and is outside the domain.
+    String::from_utf8(bytes_of(v)).expect("harness: string class must be valid UTF-8")
+}
+fn str_json(s: &str) -> Value { json!(s.as_bytes()) }
+fn f64_of(v: &Value) -> f64 { f64::from_bits(undigits(v)) }
+fn f64_json(x: f64) -> Value { json!(digits(x.to_bits())) }
+fn opt<'a>(v: &'a Value, k: &str) -> Option<&'a Value> {
+    v.get(k).and_then(|a| a.as_array()).and_then(|a| a.first())
+}
+fn pt_of(v: &Value) -> GdsPoint { GdsPoint::new(v[0].as_i64().unwrap() as i32, v[1].as_i64().unwrap() as i32) }
+fn pts_of(v: &Value) -> Vec<GdsPoint> { v.as_array().map(|a| a.iter().map(pt_of).collect()).unwrap_or_default() }
+fn pt_json(p: &GdsPoint) -> Value { json!([p.x, p.y]) }
+fn pts_json(p: &[GdsPoint]) -> Value { Value::Array(p.iter().map(pt_json).collect()) }
+
+fn dates_of(v: &Value) -> GdsDateTimes {
+    let d = ivec(v);
+    let g = |i: usize| d.get(i).copied().unwrap_or(0) as i16;
+    GdsDateTimes {
+        modified: GdsDateTime { year: g(0), month: g(1), day: g(2), hour: g(3), minute: g(4), second: g(5) },
+        accessed: GdsDateTime { year: g(6), month: g(7), day: g(8), hour: g(9), minute: g(10), second: g(11) },
+    }
+}
+fn dates_json(d: &GdsDateTimes) -> Value {
+    let f = |t: &GdsDateTime| vec![t.year, t.month, t.day, t.hour, t.minute, t.second];
+    let mut v = f(&d.modified);
+    v.extend(f(&d.accessed));
+    json!(v)
+}
+fn strans_of(v: &Value) -> Option<GdsStrans> {
+    opt(v, "strans").map(|s| GdsStrans {
+        reflected: getb(s, "refl"), abs_mag: getb(s, "absmag"), abs_angle: getb(s, "absangle"),
+        mag: opt(s, "mag").map(f64_of), angle: opt(s, "angle").map(f64_of),
+    })
+}
+fn strans_json(s: &Option<GdsStrans>) -> Value {
+    match s {
+        None => json!([]),
+        Some(s) => json!([{"refl": s.reflected, "absmag": s.abs_mag, "absangle": s.abs_angle,
+                           "mag": s.mag.map(|m| vec![f64_json(m)]).unwrap_or_default(),
+                           "angle": s.angle.map(|m| vec![f64_json(m)]).unwrap_or_default()}]),
+    }
+}
+fn flags_of(v: &Value) -> Option<GdsElemFlags> { opt(v, "elflags").map(|b| GdsElemFlags(b[0].as_u64().unwrap() as u8, b[1].as_u64().unwrap() as u8)) }
+fn plex_of(v: &Value) -> Option<GdsPlex> { opt(v, "plex").map(|b| GdsPlex(b.as_i64().unwrap() as i32)) }
+fn oi16(v: &Value, k: &str) -> Option<i16> { opt(v, k).map(|b| b.as_i64().unwrap() as i16) }
+fn oi32(v: &Value, k: &str) -> Option<i32> { opt(v, k).map(|b| b.as_i64().unwrap() as i32) }
+fn props_of(v: &Value) -> Vec<GdsProperty> {
+    geta(v, "props").iter().map(|p| GdsProperty { attr: geti(p, "attr") as i16, value: string_of(&p["value"]) }).collect()
+}
+fn props_json(p: &[GdsProperty]) -> Value {
+    Value::Array(p.iter().map(|q| json!({"attr": q.attr, "value": str_json(&q.value)})).collect())
+}
+fn flags_json(f: &Option<GdsElemFlags>) -> Value { f.as_ref().map(|f| json!([[f.0, f.1]])).unwrap_or(json!([])) }
+fn plex_json(f: &Option<GdsPlex>) -> Value { f.as_ref().map(|f| json!([f.0])).unwrap_or(json!([])) }
+fn o_json<T: serde::Serialize>(f: &Option<T>) -> Value { f.as_ref().map(|f| json!([f])).unwrap_or(json!([])) }
+
+pub fn elem_of(e: &Value) -> GdsElement {
+    let i16f = |k: &str| geti(e, k) as i16;
+    match gets(e, "kind") {
+        "boundary" => GdsBoundary { layer: i16f("layer"), datatype: i16f("datatype"), xy: pts_of(&e["xy"]),
+            elflags: flags_of(e), plex: plex_of(e), properties: props_of(e) }.into(),
+        "path" => GdsPath { layer: i16f("layer"), datatype: i16f("datatype"), xy: pts_of(&e["xy"]),
+            width: oi32(e, "width"), path_type: oi16(e, "pathtype"), begin_extn: oi32(e, "bgnextn"), end_extn: oi32(e, "endextn"),
+            elflags: flags_of(e), plex: plex_of(e), properties: props_of(e) }.into(),
+        "sref" => GdsStructRef { name: string_of(&e["name"]), xy: pt_of(&e["xy"][0]), strans: strans_of(e),
+            elflags: flags_of(e), plex: plex_of(e), properties: props_of(e) }.into(),
+        "aref" => { let p = pts_of(&e["xy"]);
+            GdsArrayRef { name: string_of(&e["name"]), xy: [p[0].clone(), p[1].clone(), p[2].clone()], cols: i16f("cols"), rows: i16f("rows"),
+            strans: strans_of(e), elflags: flags_of(e), plex: plex_of(e), properties: props_of(e) }.into() }
+        "text" => GdsTextElem { string: string_of(&e["string"]), layer: i16f("layer"), texttype: i16f("texttype"), xy: pt_of(&e["xy"][0]),
+            presentation: opt(e, "presentation").map(|b| GdsPresentation(b[0].as_u64().unwrap() as u8, b[1].as_u64().unwrap() as u8)),
+            path_type: oi16(e, "pathtype"), width: oi32(e, "width"), strans: strans_of(e),
+            elflags: flags_of(e), plex: plex_of(e), properties: props_of(e) }.into(),
+        "node" => GdsNode { layer: i16f("layer"), nodetype: i16f("nodetype"), xy: pts_of(&e["xy"]),
+            elflags: flags_of(e), plex: plex_of(e), properties: props_of(e) }.into(),
+        "box" => { let p = pts_of(&e["xy"]);
+            GdsBox { layer: i16f("layer"), boxtype: i16f("boxtype"), xy: [p[0].clone(), p[1].clone(), p[2].clone(), p[3].clone(), p[4].clone()],
+            elflags: flags_of(e), plex: plex_of(e), properties: props_of(e) }.into() }
+        k => panic!("harness: bad element kind {k}"),
+    }
+}
+pub fn elem_json(e: &GdsElement) -> Value {
+    match e {
+        GdsElement::GdsBoundary(b) => json!({"kind":"boundary","elflags":flags_json(&b.elflags),"plex":plex_json(&b.plex),"layer":b.layer,
+            "datatype":b.datatype,"xy":pts_json(&b.xy),"props":props_json(&b.properties)}),
+        GdsElement::GdsPath(b) => json!({"kind":"path","elflags":flags_json(&b.elflags),"plex":plex_json(&b.plex),"layer":b.layer,
+            "datatype":b.datatype,"pathtype":o_json(&b.path_type),"width":o_json(&b.width),"bgnextn":o_json(&b.begin_extn),
+            "endextn":o_json(&b.end_extn),"xy":pts_json(&b.xy),"props":props_json(&b.properties)}),
+        GdsElement::GdsStructRef(b) => json!({"kind":"sref","elflags":flags_json(&b.elflags),"plex":plex_json(&b.plex),
+            "name":str_json(&b.name),"strans":strans_json(&b.strans),"xy":[pt_json(&b.xy)],"props":props_json(&b.properties)}),
+        GdsElement::GdsArrayRef(b) => json!({"kind":"aref","elflags":flags_json(&b.elflags),"plex":plex_json(&b.plex),
+            "name":str_json(&b.name),"strans":strans_json(&b.strans),"cols":b.cols,"rows":b.rows,"xy":pts_json(&b.xy),
+            "props":props_json(&b.properties)}),
+        GdsElement::GdsTextElem(b) => json!({"kind":"text","elflags":flags_json(&b.elflags),"plex":plex_json(&b.plex),"layer":b.layer,
+            "texttype":b.texttype,"presentation":b.presentation.as_ref().map(|p| json!([[p.0,p.1]])).unwrap_or(json!([])),
+            "pathtype":o_json(&b.path_type),"width":o_json(&b.width),"strans":strans_json(&b.strans),"xy":[pt_json(&b.xy)],
+            "string":str_json(&b.string),"props":props_json(&b.properties)}),
+        GdsElement::GdsNode(b) => json!({"kind":"node","elflags":flags_json(&b.elflags),"plex":plex_json(&b.plex),"layer":b.layer,
+            "nodetype":b.nodetype,"xy":pts_json(&b.xy),"props":props_json(&b.properties)}),
+        GdsElement::GdsBox(b) => json!({"kind":"box","elflags":flags_json(&b.elflags),"plex":plex_json(&b.plex),"layer":b.layer,
+            "boxtype":b.boxtype,"xy":pts_json(&b.xy),"props":props_json(&b.properties)}),
+    }
+}
+
+pub fn lib_of(v: &Value) -> GdsLibrary {
+    let mut lib = GdsLibrary::new(string_of(&v["name"]));
+    lib.version = geti(v, "version") as i16;
+    lib.dates = dates_of(&v["dates"]);
+    lib.units = GdsUnits(f64_of(&v["units"][0]), f64_of(&v["units"][1]));
+    for s in geta(v, "structs") {
+        let mut st = GdsStruct::new(string_of(&s["name"]));
+        st.dates = dates_of(&s["dates"]);
+        st.elems = geta(s, "elems").iter().map(elem_of).collect();
+        lib.structs.push(st);
+    }
+    lib
+}
+pub fn lib_json(lib: &GdsLibrary) -> Value {
+    json!({"name": str_json(&lib.name), "version": lib.version, "dates": dates_json(&lib.dates),
+           "units": [f64_json(lib.units.0), f64_json(lib.units.1)], "unsupported": [],
+           "structs": lib.structs.iter().map(|s| json!({"name": str_json(&s.name), "dates": dates_json(&s.dates),
+                "elems": s.elems.iter().map(elem_json).collect::<Vec<_>>()})).collect::<Vec<_>>()})
+}
